@@ -27,7 +27,7 @@ KINDS = [
     'insert_qudit', 'append_qudit', 'pop_qudit', 'renumber', 'fold', 'unfold', 'straighten',
     'compress', 'batch_pop', 'batch_replace', 'replace_with_circuit', 'append_circuit',
     'insert_circuit', 'unfold_all', 'batch_unfold', 'inverse', 'add', 'mul', 'iadd', 'imul',
-    'copy', 'become', 'clear', 'extend', 'remove_all', 'fold_unfold',
+    'copy', 'become', 'clear', 'extend', 'remove_all', 'fold_unfold', 'replace_perm',
 ]
 
 NARGS = 10  # ints per call after zero-padding
@@ -39,7 +39,7 @@ NA = {
     'fold': 9, 'straighten': 9, 'fold_unfold': 9, 'unfold': 2, 'batch_unfold': 3, 'compress': 0,
     'unfold_all': 0, 'copy': 0, 'clear': 0, 'batch_pop': 7, 'batch_replace': 8, 'replace_with_circuit': 4,
     'append_circuit': 5, 'insert_circuit': 6, 'add': 3, 'iadd': 3, 'extend': 3, 'mul': 1, 'imul': 1,
-    'inverse': 0, 'become': 1,
+    'inverse': 0, 'become': 1, 'replace_perm': 3,
 }
 
 
@@ -231,6 +231,7 @@ def model_insert(seqs: list, W: int, ncyc: int, c: int, loc: list[int], ent_of: 
 def next_range(kind: str, W: int, n: int, p: list[int]) -> tuple[int, int]:
     """Range of the next symbolic argument of `kind`, given the already concretised ones."""
     i = len(p)
+    narrow = bool(rt.SHARD.get('narrow', False))      # quick tier: in-range arguments only (thorough adds the out-of-range ones)
 
     def locr(base: int) -> tuple[int, int]:
         j = i - base
@@ -241,8 +242,10 @@ def next_range(kind: str, W: int, n: int, p: list[int]) -> tuple[int, int]:
     if kind == 'append_gate':
         return locr(0)
     if kind == 'insert_gate':
-        return locr(0) if i < 4 else (-n - 1, n + 1)
+        return locr(0) if i < 4 else ((0, n) if narrow else (-n - 1, n + 1))
     if kind == 'pop':
+        if narrow:
+            return (0, max(n - 1, 0)) if i == 0 else (0, W - 1)
         return (-n - 1, n) if i == 0 else (-W - 1, W)
     if kind == 'replace_gate':
         if i == 0:
@@ -252,12 +255,14 @@ def next_range(kind: str, W: int, n: int, p: list[int]) -> tuple[int, int]:
         return locr(2)
     if kind in ('remove', 'remove_all'):
         return [(0, n - 1), (0, W - 1), (0, 1)][i]
+    if kind == 'replace_perm':       # [c, q, rotation]: replace by a fresh gate on the SAME qudits, location rotated
+        return [(0, max(n - 1, 0)), (0, W - 1), (0, 1)][i]
     if kind == 'pop_cycle':
-        return (-n - 1, n)
+        return (0, max(n - 1, 0)) if narrow else (-n - 1, n)
     if kind == 'insert_qudit':
-        return (-W - 1, W + 1)
+        return (0, W) if narrow else (-W - 1, W + 1)
     if kind == 'pop_qudit':
-        return (-W - 1, W)
+        return (0, W - 1) if narrow else (-W - 1, W)
     if kind == 'renumber':
         return (0, W - 1) if i < W else (0, 0)
     if kind in ('fold', 'straighten', 'fold_unfold'):
@@ -290,7 +295,7 @@ def next_range(kind: str, W: int, n: int, p: list[int]) -> tuple[int, int]:
             return (0, 0)
         return [(0, n - 1), (0, W - 1), (0, 2)][(i - 2) % 3]
     if kind == 'replace_with_circuit':   # [c, q, shape, as_gate]
-        return [(-n, n - 1), (0, W - 1), (0, 3), (0, 1)][i]
+        return [(0, n - 1) if narrow else (-n, n - 1), (0, W - 1), (0, 3), (0, 1)][i]
     if kind == 'append_circuit':         # [ar, q0, shape, as_gate, q1]
         if i == 0:
             return (1, min(2, W))
@@ -299,7 +304,7 @@ def next_range(kind: str, W: int, n: int, p: list[int]) -> tuple[int, int]:
         return [None, (0, W - 1), (0, 3), (0, 1)][i]  # type: ignore
     if kind == 'insert_circuit':         # [ar, q0, shape, as_gate, q1, c]
         if i == 5:
-            return (-n - 1, n + 1)
+            return (0, n) if narrow else (-n - 1, n + 1)
         return next_range('append_circuit', W, n, p)
     if kind in ('add', 'iadd', 'extend'):   # [0, 0, shape]
         return (0, 0) if i < 2 else (0, 3)
@@ -399,6 +404,14 @@ def do_call_concrete(circ: Circuit, kind: str, a: list[int], tags: Tags) -> Outc
         call(circ.pop)
         return o
 
+    if kind == 'replace_perm':
+        c, q, r = a[:3]
+        if c >= n or g[c][q] is None:
+            return None
+        old = list(g[c][q].location)
+        newloc = old[r:] + old[:r] if r else list(old)
+        a = [c, q, len(newloc)] + newloc + [0] * (3 - len(newloc)) + [0] * 4
+        kind = 'replace_gate'
     if kind == 'replace_gate':
         c, q, ar, q0, q1, q2 = a[:6]
         loc = decode_loc(W, ar, q0, q1, q2)
